@@ -87,7 +87,7 @@ pub fn sink_matrix(ctx: &Ctx, who: &str, a: &dyn Aml, replay: &dyn Fn() -> Value
 fn raw_forms(ctx: &'static Ctx) -> u64 {
     // every structure type accepted by MADT::add_structure / HEST::add_structure: as_bytes == serialised == what u8sum sees
     let n = AtomicU64::new(0);
-    let mut fills: Vec<Fill> = vec![Fill::b(0), Fill::b(1), Fill::b(2), Fill::b(3)];
+    let mut fills: Vec<Fill> = vec![Fill::b(0), Fill::b(1), Fill::b(2), Fill::b(3), Fill::b(crate::fill::EQUAL), Fill::b(crate::fill::LOWER), Fill::b(crate::fill::BLANK)];
     for i in 0..26u8 {
         fills.push(Fill::b(2).with(i, 0));
         fills.push(Fill::b(2).with(i, u64::MAX));
